@@ -326,7 +326,14 @@ def linspace_block(start, stop, step, offset, size, num, endpoint=True, dtype=No
         stop = stop.compute()
 
     dt = np.result_type(start, stop, float(num))
-    y = np.arange(offset, offset + size, dtype=dt) * step + start
+    y = np.arange(offset, offset + size, dtype=dt)
+    if step == 0:
+        # the step underflowed (denormal range): divide first, like NumPy
+        div = (num - 1) if endpoint else num
+        y = y / (div if div > 0 else 1) * np.subtract(stop, start, dtype=dt)
+    else:
+        y = y * step
+    y = y + start
     if endpoint and num > 1 and size > 0 and offset + size == num:
         y[-1] = stop
     if np.issubdtype(dtype, np.integer):
